@@ -167,9 +167,11 @@ package sm
 //@     invariant ids: mirrors(a, m) && a.Header.CommandFlags == m.Header.CommandFlags &^ 0x80
 //@   end
 //@   loop 1
-//@     # C11 "a success CEA advertises at least the dictionary applications it shares with the peer": every supported
-//@     # application contributes at least one AVP of its own to the answer (none is skipped), after the fixed part
-//@     invariant [C11] every_supported_application_is_advertised: len(a.AVP) >= 5 + len(hostAddresses) + (cer.OriginStateID != nil ? 1 : 0) + rangeindex + 1
+//@     # C11 "a success CEA advertises at least the dictionary applications it shares with the peer": in every round of the
+//@     # loop over the supported applications an application-id AVP is added to the answer - a Vendor-Specific-Application-Id
+//@     # group for a vendor application, else an AVP carrying the application's id (no application is skipped)
+//@     eachround (*diam.Message).NewAVP: [C11] every_supported_application_is_advertised: ARG0 == a &&
+//@               ((typeis(ARG1, int) && ARG1.(int) == 260 && typeis(ARG4, *diam.GroupedAVP)) || (typeis(ARG1, uint32) && typeis(ARG4, datatype.Unsigned32) && uint32(ARG4.(datatype.Unsigned32)) == app.ID))
 //@     invariant 0 - 1 <= rangeindex && rangeindex < len(sm.supportedApps)
 //@     invariant apps_listed: forall i int :: 0 <= i && i < len(sm.supportedApps) ==> sm.supportedApps[i] != nil
 //@     invariant own1: a != nil && fresh(a) && a.Header != nil && fresh(a.Header)
@@ -312,23 +314,30 @@ package sm
 //@   assumepre AddAVP: the AVPs the application put into the Client's lists are non-nil and carry valid data (Client.validate already dereferences them); Vendor-Specific-Application-Id AVPs are groups, for which Message.AddAVP's contract is not proved and is assumed here
 //@   modifies
 //@   ensures [C12] a_capabilities_exchange_request_with_the_identity: fresh(m) && iscer(m, cli.Handler.cfg)
+//@   # C12 "every application the client was told to advertise": in every round of each of the four list loops the entry
+//@   # of that round is added to the request (none is skipped); likewise one Host-IP-Address AVP per configured address
 //@   loop 0
+//@     eachround (*diam.Message).NewAVP: [C12] one_avp_per_host_address: ARG0 == m && typeis(ARG1, int) && ARG1.(int) == 257
 //@     invariant 0 - 1 <= rangeindex && rangeindex < len(hostIPAddresses)
 //@     invariant built: fresh(m) && fresh(m.Header) && iscer(m, cli.Handler.cfg) && m.dictionary == cli.Dict && fresh(m.AVP)
 //@   end
 //@   loop 1
+//@     eachround (*diam.Message).AddAVP: [C12] every_entry_is_added: ARG0 == m && ARG1 == a
 //@     invariant 0 - 1 <= rangeindex && rangeindex < len(cli.SupportedVendorID)
 //@     invariant built: fresh(m) && fresh(m.Header) && iscer(m, cli.Handler.cfg) && m.dictionary == cli.Dict && fresh(m.AVP)
 //@   end
 //@   loop 2
+//@     eachround (*diam.Message).AddAVP: [C12] every_entry_is_added: ARG0 == m && ARG1 == a
 //@     invariant 0 - 1 <= rangeindex && rangeindex < len(cli.AuthApplicationID)
 //@     invariant built: fresh(m) && fresh(m.Header) && iscer(m, cli.Handler.cfg) && m.dictionary == cli.Dict && fresh(m.AVP)
 //@   end
 //@   loop 3
+//@     eachround (*diam.Message).AddAVP: [C12] every_entry_is_added: ARG0 == m && ARG1 == a
 //@     invariant 0 - 1 <= rangeindex && rangeindex < len(cli.AcctApplicationID)
 //@     invariant built: fresh(m) && fresh(m.Header) && iscer(m, cli.Handler.cfg) && m.dictionary == cli.Dict && fresh(m.AVP)
 //@   end
 //@   loop 4
+//@     eachround (*diam.Message).AddAVP: [C12] every_entry_is_added: ARG0 == m && ARG1 == a
 //@     invariant 0 - 1 <= rangeindex && rangeindex < len(cli.VendorSpecificApplicationID)
 //@     invariant built: fresh(m) && fresh(m.Header) && iscer(m, cli.Handler.cfg) && m.dictionary == cli.Dict && fresh(m.AVP)
 //@   end
